@@ -45,6 +45,15 @@ def default_float_factory(value):  # type: (typing.Any) -> decimal.Decimal
 # TODO support for [START_PARAM_NODE_TX_MSG]
 
 
+def frame_by_plain_id(db, plain_id):
+    # type: (canmatrix.CanMatrix, int) -> typing.Optional[canmatrix.Frame]
+    """References inside a DBF file carry the plain identifier, without the standard/extended flag."""
+    for frame in db.frames:
+        if frame.arbitration_id.id == plain_id:
+            return frame
+    return None
+
+
 def decode_define(line):  # type: (str) -> typing.Tuple[str, str, str]
     (define, value_type, value) = line.split(',', 2)
     value_type = value_type.strip()
@@ -81,7 +90,7 @@ def load(f, **options):  # type: (typing.IO, **typing.Any) -> canmatrix.CanMatri
             else:
                 (bo_id, tem_s, signal_name, comment) = line.split(' ', 3)
                 comment = comment.replace('"', '').replace(';', '')
-                db.frame_by_id(canmatrix.ArbitrationId.from_compound_integer(int(bo_id))).signal_by_name(
+                frame_by_plain_id(db, int(bo_id)).signal_by_name(
                     signal_name).add_comment(comment)
 
         if mode == 'BUDescription':
@@ -100,7 +109,7 @@ def load(f, **options):  # type: (typing.IO, **typing.Any) -> canmatrix.CanMatri
             else:
                 (bo_id, tem_s, comment) = line.split(' ', 2)
                 comment = comment.replace('"', '').replace(';', '')
-                frame = db.frame_by_id(canmatrix.ArbitrationId.from_compound_integer(int(bo_id)))
+                frame = frame_by_plain_id(db, int(bo_id))
                 if frame:
                     frame.add_comment(comment)
 
@@ -109,8 +118,7 @@ def load(f, **options):  # type: (typing.IO, **typing.Any) -> canmatrix.CanMatri
                 mode = ''
             else:
                 (bo_id, tem_s, attrib, value) = line.split(',', 3)
-                db.frame_by_id(canmatrix.ArbitrationId.from_compound_integer(
-                    int(bo_id))).add_attribute(
+                frame_by_plain_id(db, int(bo_id)).add_attribute(
                     attrib.replace('"', ''),
                     value.replace('"', ''))
 
@@ -134,7 +142,7 @@ def load(f, **options):  # type: (typing.IO, **typing.Any) -> canmatrix.CanMatri
                 mode = ''
             else:
                 (bo_id, tem_s, signal_name, attrib, value) = line.split(',', 4)
-                db.frame_by_id(canmatrix.ArbitrationId.from_compound_integer(int(bo_id)))\
+                frame_by_plain_id(db, int(bo_id))\
                     .signal_by_name(signal_name)\
                     .add_attribute(attrib.replace('"', ''), value[1:-1])
 
